@@ -140,6 +140,7 @@ def state_the_mask_reads(ctx: Ctx):
     if len(ctx.obligations) - n0 < 10:
         raise AnalysisError(f"state-update obligations lost: {len(ctx.obligations) - n0}")
     C01.op_lengths(ctx, "C05.l")
+    C01.depot_first_layout(ctx, "C05.m")
     from .C04 import batch_rows
     batch_rows(ctx, "C05.k", envs=tuple(T.ENVS), meths=("_step", "get_action_mask"),
                sink_ok=lambda cname, meth, sink: sink == "return" or sink in ("cell:action_mask",))
